@@ -225,7 +225,15 @@ Definition so_step (prop : Z) (ns : nat) (snaps : list (list ssnap)) (o : so) (r
         (* a release reaches the interface: slot(rid) pod(pod) eni(cid) a4 a6 handled uidPassed uidStored.
            C03: the teardown is reported under the uid recorded with the allocation, not under whatever uid the
            API shows for that name now *)
-        (if prop =? 3 then match rest with _ :: _ :: _ :: up :: ua :: _ => so_req o (up =? ua) 351 | _ => o end else o)
+        (if prop =? 3 then
+           match rest with
+           | _ :: _ :: _ :: up :: ua :: _ =>
+               let o1 := so_req o (up =? ua) 351 in
+               (* 352: outside a DEL the agent gives an allocation up (and so reports its teardown) only for a pod it has
+                  verified to be gone from the API *)
+               if o_ingc o1 then so_req o1 (negb (o_apie o1) && existsb (fun g => fst g =? pod) (o_gonep o1)) 352 else o1
+           | _ => o end
+         else o)
       else if k =? 42 then
         (* store: op(rid) pod(pod) cid(cid) eni a4 a6 *)
         match rest with
@@ -302,6 +310,7 @@ Definition so_step (prop : Z) (ns : nat) (snaps : list (list ssnap)) (o : so) (r
         so_req o1 (forallb (fun g => (snd g <? 2) || match sget (fst g) (o_store o1) with None => true | Some _ => false end) gp) 902
       else o1
   | [35; p] => so_upd o (o_store o) (o_ack o) (o_rpcs o) (if existsb (fun g => fst g =? p) (o_gonep o) then o_gonep o else (p, 0) :: o_gonep o) (o_apie o) (o_ingc o) (o_failed o) (o_restarted o)
+  | [44; p] => so_upd o (o_store o) (o_ack o) (o_rpcs o) (filter (fun g => negb (fst g =? p)) (o_gonep o)) (o_apie o) (o_ingc o) (o_failed o) (o_restarted o)   (* a new instance of the name exists *)
   | [40; p; b] =>
       (* a pod whose release fails at the interface is exempt from the two-pass clause (it can never be collected) *)
       so_upd o (o_store o) (o_ack o) (o_rpcs o) ((p, -1000000) :: filter (fun g => negb (fst g =? p)) (o_gonep o)) (o_apie o) (o_ingc o) (o_failed o) (o_restarted o)
